@@ -106,6 +106,16 @@ def repay (e : Env) (b0 : Bank) (bal : Option Balance) (amount : Int) (all : Boo
       let pre ← preFeeAmt e amount
       .ok (b, some x, pre)
 
+/-- `lending_account_close_balance`: accrual first, then the wrapper's `close_balance` (claims emissions, refuses anything
+    above dust on either side at the ACCRUED share values, deactivates the slot) -/
+def closeBalance (e : Env) (b0 : Bank) (bal : Option Balance) : Res Out := do
+  let b ← accrueInterest b0 e.ir e.now
+  match bal with
+  | none => merr E.BankAccountNotFound
+  | some x => do
+    let (b, x) ← closeBalanceOp b x e.now
+    .ok (b, some x, 0)
+
 /-! ### classic liquidation: the accounting block of `lending_account_liquidate`
 
 Both banks are accrued, the amounts block (`Risk.liquidationAmounts`: 97.5 % / 95 % of the seized value at the given
@@ -146,5 +156,11 @@ def liquidate (irA irL : Interest.IrCalc) (now : Int) (a0 l0 : Bank)
   let f ← math (add? r4.1.feeI amts.feeFrac)
   .ok { assetBank := r3.1, liabBank := { r4.1 with feeI := f }, lqLiab := r1.2, leAsset := r2.2, lqAsset := r3.2, leLiab := r4.2,
         insuranceTokens := amts.feeWhole }
+
+/-- `lending_pool_handle_bankruptcy`, the books: the bank is brought up to the current time FIRST, and the bad debt —
+    what insurance covers, what depositors lose, what is repaid — is the position's debt at the accrued share value -/
+def bankruptcy (ir : Interest.IrCalc) (now : Int) (b0 : Bank) (bal : Balance) (available : Int) : Res BankruptcyOut := do
+  let b ← accrueInterest b0 ir now
+  settleBankruptcy b bal available now
 
 end Mfi.Ix
